@@ -4,6 +4,8 @@
 import GoFlags.Ini
 import GoFlags.Lemmas.Tables
 
+import GoFlags.Props.C01.Step
+
 namespace GoFlags.C05
 open GoFlags Bytes
 
@@ -102,4 +104,75 @@ theorem as_defaults_never_overrides_closed_option (E : Env) (help : HelpFn) (fil
     iniApplyEntry E help true file groups st v = (st, none) := by
   unfold iniApplyEntry; simp [hfind, hp]
 
+/-! ### The whole defaults phase -/
+
+theorem optSetDefault_other (E : Env) (help : HelpFn) (P : Parser) (r r' : ORef) (v : Option Bytes) (log : List Event)
+    (h : r ≠ r') : (optSetDefault E help P r v log).1.opt r' = P.opt r' := by
+  unfold optSetDefault
+  split
+  · rfl
+  · have h1 := C01.set_touches_only_its_option E help P r r' v log h
+    generalize optSet E help P r v log = res at h1
+    obtain ⟨P', log', e⟩ := res
+    cases e with
+    | some e => exact h1
+    | none =>
+      simp only at h1 ⊢
+      rw [Parser.opt_modOpt_ne _ _ _ _ h]; exact h1
+
+theorem setDefaults_other (E : Env) (help : HelpFn) (r r' : ORef) (ds : List Bytes) (P : Parser) (log : List Event)
+    (h : r ≠ r') : (setDefaults E help r ds P log).1.opt r' = P.opt r' := by
+  induction ds generalizing P log with
+  | nil => rfl
+  | cons d ds ih =>
+    unfold setDefaults
+    have h1 := optSetDefault_other E help P r r' (some d) log h
+    generalize optSetDefault E help P r (some d) log = res at h1
+    obtain ⟨P', log', e⟩ := res
+    cases e with
+    | some e => exact h1
+    | none => simp only; rw [ih]; exact h1
+
+theorem optClearDefault_other (E : Env) (help : HelpFn) (P : Parser) (r r' : ORef) (log : List Event)
+    (h : r ≠ r') : (optClearDefault E help P r log).1.opt r' = P.opt r' := by
+  unfold optClearDefault
+  split
+  · rfl
+  · simp only
+    split
+    · rw [setDefaults_other E help r r' _ _ _ h, Parser.opt_modOpt_ne _ _ _ _ h, Parser.opt_modOpt_ne _ _ _ _ h]
+    · split
+      · rw [Parser.opt_modOpt_ne _ _ _ _ h, Parser.opt_modOpt_ne _ _ _ _ h]
+      · rw [Parser.opt_modOpt_ne _ _ _ _ h]
+
+/-- **A closed option goes through the whole defaults phase untouched.**  Whatever the
+    environment holds and whatever default tags it and every other option declare: after defaults
+    have been applied to ALL options of the parser (in any order), an option that was closed
+    before — it occurred on the command line or a normally read INI file set it — is exactly as it
+    was: value, marks and all. -/
+theorem closed_option_survives_defaults_phase (E : Env) (help : HelpFn) (r : ORef) (rs : List ORef) :
+    ∀ s : PS, (s.P.opt r).preventDefault = true → (clearDefaultsAll E help rs s).P.opt r = s.P.opt r := by
+  induction rs with
+  | nil => intro s _; rfl
+  | cons r' rs ih =>
+    intro s hclosed
+    unfold clearDefaultsAll
+    by_cases hrr : r' = r
+    · subst hrr
+      rw [closed_option_ignores_defaults E help s.P r' s.log hclosed]
+      simp only
+      exact ih _ hclosed
+    · have hother := optClearDefault_other E help s.P r' r s.log hrr
+      generalize optClearDefault E help s.P r' s.log = res at hother
+      obtain ⟨P', log', e⟩ := res
+      simp only at hother
+      cases e with
+      | none =>
+        simp only
+        rw [ih _ (by simp only; rw [hother]; exact hclosed)]
+        exact hother
+      | some e =>
+        simp only
+        rw [ih _ (by simp only; rw [hother]; exact hclosed)]
+        exact hother
 end GoFlags.C05
